@@ -77,7 +77,7 @@ def make_text(rng, tree_ids, tree_pids, n_extra=0, with_tail=False):
     return text, rows, comments
 
 
-MALFORM = ["few-fields", "nonnumeric", "float-id", "junk-suffix", "neg-type", "float-pid-word", "comma"]
+MALFORM = ["few-fields", "nonnumeric", "float-id", "junk-suffix", "neg-type", "float-pid-word", "comma", "inline-hash", "glued-suffix"]
 
 
 def malformed_line(rng, kind):
@@ -95,6 +95,10 @@ def malformed_line(rng, kind):
         return " ".join(g)
     if kind == "junk-suffix":
         return " ".join(good) + " abc"
+    if kind == "inline-hash":      # a row with a remark after it is not a data row, and it is not a comment line either
+        return " ".join(good) + rng.choice([" # note", "  #7", " #"]) if rng.random() < 0.7 else " ".join(good[:4]) + " # x 1.0 6"
+    if kind == "glued-suffix":     # the parent id is not an integer: nothing of it may be read as one
+        return " ".join(good[:6]) + " " + rng.choice(["6e5", "6.5", "6,5", "6-1", "6+", "6E+2"])
     if kind == "neg-type":
         g = good[:]; g[1] = "-3"
         return " ".join(g)
